@@ -1,4 +1,5 @@
 // Included by hook H2 inside `crate::helpers::buffers` (access to private buffer types).
+#[cfg(descriptive_gate)]
 pub(crate) mod c14 {
     include!(concat!(env!("IPA_VERIF_DIR"), "/harness/c14.rs"));
 }
